@@ -156,6 +156,10 @@ Fixpoint lookup_md (l : list (string * list nat)) (e : string) : list nat :=
   | (e', cs) :: r => if String.eqb e e' then cs else lookup_md r e
   end.
 
+Definition mdtab := list (string * list nat).
+Definition mdf (t : mdtab) : option string -> list nat :=
+  fun o => match o with Some e => lookup_md t e | None => [] end.
+
 (* mk: receiver configuration, clock, entry point, binding, transport encoding, message fields,
    enveloped signature (signer, content altered after signing, profile constraints met, embedded
    certificates), RelayState / SigAlg / Signature as handed in — the detached signature is
@@ -169,7 +173,7 @@ Definition mk (etyp : string) (epl : list (string * string * list epspec)) (ws o
     (rs sa : option string) (sg : option (option (nat * bool * option string * string)))
     (obs : nat) : case :=
   let c := Build_config etyp (lookup_eps epl) ws ovc td omd
-             (fun o => match o with Some e => lookup_md mdl e | None => [] end)
+             (mdf mdl)
              (fun ct => match valid with None => true | Some l => memn ct l end) in
   let b := Build_body bk ver dst iss issr xsd inst 7 in
   let e := match envs with
@@ -189,12 +193,58 @@ Definition agrees (c : case) : bool :=
 (* an outcome outside the enumeration is a rejection: the property holds, the model disagrees *)
 Definition holds (c : case) : bool :=
   match snd c with Some v => spec_b (fst c) v | None => true end.
-Definition cls (c : case) : nat := 0.
-Definition run := run_cases agrees holds cls.
-Definition explain (c : case) :=
+Definition explain1 (c : case) :=
   (imodel (fst c), snd c,
    receiver_addrs (cfg (fst c)) (service_of (expected (fst c))) (binding (fst c)),
    match snd c with Some v => spec_b (fst c) v | None => true end).
+
+(* ---------- lives ----------
+   A test case is one request on a receiver (One) or the life of a process (Life): the metadata
+   each receiver object is built from and the operations in order — requests (as built by mk; the
+   metadata argument of mk is ignored: Model.run_life judges each request against the metadata its
+   receiver holds at that moment), successful reloads (new metadata table), failed reloads.  The
+   observed verdicts are compared with Model.run_life, and the spec is evaluated on each observed
+   verdict with the metadata current at that step. *)
+Inductive lop :=
+  | LReq (r : nat) (c : case)
+  | LReload (r : nat) (t : mdtab)
+  | LReloadFailed (r : nat).
+
+Inductive tcase := One (c : case) | Life (init : list mdtab) (ops : list lop).
+
+Definition iop := op nat iesig idsig nat.
+Definition to_op (o : lop) : iop :=
+  match o with
+  | LReq r c => Req r (fst c)
+  | LReload r t => Reload r (mdf t)
+  | LReloadFailed r => ReloadFailed r
+  end.
+
+Fixpoint observed (ops : list lop) : list (option verdict) :=
+  match ops with
+  | [] => []
+  | LReq _ c :: t => snd c :: observed t
+  | _ :: t => observed t
+  end.
+
+Definition init_state (init : list mdtab) : nat -> option string -> list nat :=
+  fun r => mdf (nth r init []).
+
+Definition ilife (init : list mdtab) (ops : list lop) : list (iinput * verdict) :=
+  run_life ieverify idverify (init_state init) (map to_op ops).
+
+(* (effective input, observed verdict) of every request of the life *)
+Definition life_cases (init : list mdtab) (ops : list lop) : list case :=
+  map (fun po => (fst (fst po), snd po)) (combine (ilife init ops) (observed ops)).
+
+Definition cases_of (t : tcase) : list case :=
+  match t with One c => [c] | Life init ops => life_cases init ops end.
+
+Definition tagrees (t : tcase) : bool := forallb agrees (cases_of t).
+Definition tholds (t : tcase) : bool := forallb holds (cases_of t).
+Definition cls (t : tcase) : nat := 0.
+Definition run := run_cases tagrees tholds cls.
+Definition explain (t : tcase) := map explain1 (cases_of t).
 
 (* ---------- the boolean spec is the stated spec (on the instance) ---------- *)
 Lemma verdict_eqb_eq a b : verdict_eqb a b = true <-> a = b.
@@ -318,6 +368,27 @@ Qed.
 (* the instance satisfies the hypotheses of the general theorems *)
 Lemma instance_sound (x : iinput) : spec icert_of iesign idsign x (imodel x).
 Proof. apply soundness; [exact ieverify_spec|exact idverify_spec]. Qed.
+
+(* ... for lives too: what the correspondence evaluates per step is the effective input of Model.run_life *)
+Lemma instance_life_sound init ops :
+  Forall (fun p => spec icert_of iesign idsign (fst p) (snd p)) (ilife init ops).
+Proof. apply life_sound; [exact ieverify_spec|exact idverify_spec]. Qed.
+
+Lemma observed_length init ops : length (observed ops) = length (ilife init ops).
+Proof.
+  unfold ilife. generalize (init_state init). induction ops as [|o t IH]; intros st; [reflexivity|].
+  destruct o as [r c|r m|r]; cbn [observed map to_op run_life length]; [f_equal|..]; apply IH.
+Qed.
+
+(* a life on which model and implementation agree step by step and whose observed verdicts all pass
+   spec_b: every observed verdict satisfies the stated spec on the effective input of its step *)
+Lemma tholds_sound t :
+  tholds t = true ->
+  Forall (fun c => match snd c with Some v => spec icert_of iesign idsign (fst c) v | None => True end) (cases_of t).
+Proof.
+  unfold tholds. intros H0. pose proof (proj1 (forallb_forall _ _) H0) as H. apply Forall_forall. intros c Hc. specialize (H c Hc). revert H.
+  unfold holds. destruct c as [x [v|]]; cbn [fst snd]; [intros H; apply spec_b_iff; exact H|intros _; exact I].
+Qed.
 
 (* non-vacuity: a request that IS processed under a signing requirement, over POST (enveloped) and
    over Redirect (detached) *)
